@@ -7,6 +7,7 @@ from trie.fog import HexaryTrieFog
 from ..util import Info, Raised, expect, expect_eq, impl
 
 ID = "C11"
+ATHERIS = True  # thorough tier: coverage-guided second engine over the same strategy/run_case
 LEVEL = "exploration"
 BUDGET = {"quick": 24000, "thorough": 1500000}
 RULE = (
